@@ -3,8 +3,9 @@
 usage: seedstore.py PROP m "detected by ..." [base-commit]"""
 import json,os,shutil,glob,sys,subprocess
 p,m,d=sys.argv[1:4]
-base=sys.argv[4] if len(sys.argv)>4 else subprocess.check_output(['git','-C',f'/tmp/wt/{p}','rev-parse','--short','HEAD']).decode().strip()
-src=f'/tmp/wt/{p}.out/{m}'; dst=f'/verif/seeded/{p}-{m}'
+sfx=os.environ.get('WT_SUFFIX','')
+base=sys.argv[4] if len(sys.argv)>4 else subprocess.check_output(['git','-C',f'/tmp/wt/{p}{sfx}','rev-parse','--short','HEAD']).decode().strip()
+src=f'/tmp/wt/{p}{sfx}.out/{m}'; dst=f'/verif/seeded/{p}-{m}'
 if os.path.exists(dst): shutil.rmtree(dst)
 os.makedirs(dst+'/demo')
 shutil.copy(src+'/patch.diff',dst+'/patch.diff')
@@ -15,7 +16,7 @@ notes=open(src+'/notes.txt').read() if os.path.exists(src+'/notes.txt') else ''
 open(dst+'/notes.txt','w').write(notes)
 meta={"property":p,"id":f"{p}-{m}","source":"independent sub-agent given only the property text and a scratch worktree",
       "needs_to_manifest":notes[:1500],
-      "confirmed":f"tools/seedverify.sh {p} {m} in scratch worktree /tmp/wt/{p} (HEAD {base}): demonstration passes without the change, fails with it; ./pkg/... suite result unchanged by the change (pkg/libs/cupcake/rdb fails on the baseline too: missing fixtures)",
+      "confirmed":f"tools/seedverify.sh {p} {m} in scratch worktree /tmp/wt/{p}{sfx} (HEAD {base}): demonstration passes without the change, fails with it; ./pkg/... suite result unchanged by the change (pkg/libs/cupcake/rdb fails on the baseline too: missing fixtures)",
       "checked_with":f"tools/seedrun.sh {p} seeded/{p}-{m}/patch.diff (scratch copy of /repo/src via RS_REPO; /repo untouched)",
       "detected_by":d}
 json.dump(meta,open(dst+'/meta.json','w'),indent=1)
